@@ -1,8 +1,11 @@
 package main
 
 import (
+	"go/token"
 	"go/types"
 	"strings"
+
+	"golang.org/x/tools/go/packages"
 
 	"golang.org/x/tools/go/ssa"
 )
@@ -117,6 +120,8 @@ func runC22(w *World, r *Report) {
 			r.Anchor("R-C22-1", "nil-error returns of ValidateJWT")
 		}
 	}
+
+	c22CacheExpiry(w, r, op)
 
 	// ---- R-C22-2
 	if fn := w.ssaFunc(op, "parseAndValidateJWT"); fn == nil {
@@ -380,4 +385,174 @@ func fieldOf(v ssa.Value) (fieldRef, bool) {
 	}
 
 	return fieldRef{}, false
+}
+
+// c22CacheExpiry: R-C22-5. The validation cache may not outlive the token:
+// the Expires stored in a JWT cache entry must be the token's own exp on every
+// path on which the token carries one.
+func c22CacheExpiry(w *World, r *Report, op *packages.Package) {
+	r.Rule("R-C22-5", "the Expires field of the entry stored in the JWT validation cache derives from claims.ExpiresAt on every path where ExpiresAt is non-nil (phi edges carrying any other value must be unreachable once the ExpiresAt==nil edges are removed); cache hits are accepted only behind time.Now().Before(entry.Expires)", 2)
+
+	fn := w.ssaFunc(op, "ValidateJWT")
+	if fn == nil {
+		r.Anchor("R-C22-5", "oauth.ValidateJWT")
+
+		return
+	}
+
+	isExpiresAt := func(v ssa.Value) bool {
+		return derivesFrom(v, func(s ssa.Value) bool {
+			switch x := s.(type) {
+			case *ssa.FieldAddr:
+				return fieldName(x.X.Type(), x.Field) == "ExpiresAt"
+			case *ssa.Field:
+				return fieldName(x.X.Type(), x.Field) == "ExpiresAt"
+			}
+
+			return false
+		}, nil)
+	}
+
+	// edges that establish ExpiresAt == nil
+	nilCuts := cutEdges(fn, func(f Fact) bool { return f.Kind == "nil" && isFieldNamed(f.V, "ExpiresAt") })
+	reachable := reach(fn.Blocks[0], nilCuts, nil)
+
+	n := 0
+
+	allInstrs(fn, func(in ssa.Instruction) {
+		st, ok := in.(*ssa.Store)
+		if !ok {
+			return
+		}
+
+		fa, ok := st.Addr.(*ssa.FieldAddr)
+		if !ok || fieldName(fa.X.Type(), fa.Field) != "Expires" || namedOf(fa.X.Type()) == nil || namedOf(fa.X.Type()).Obj().Name() != "JWTCacheEntry" {
+			return
+		}
+
+		n++
+
+		key := "oauth.ValidateJWT|JWTCacheEntry.Expires"
+
+		// leaves of the stored value through phis, with the predecessor block of each
+		type leaf struct {
+			v    ssa.Value
+			pred *ssa.BasicBlock
+		}
+
+		var leaves []leaf
+
+		seen := map[ssa.Value]bool{}
+
+		var rec func(v ssa.Value, pred *ssa.BasicBlock)
+
+		rec = func(v ssa.Value, pred *ssa.BasicBlock) {
+			if ph, ok := v.(*ssa.Phi); ok {
+				if seen[ph] {
+					return
+				}
+
+				seen[ph] = true
+
+				for i, e := range ph.Edges {
+					rec(e, ph.Block().Preds[i])
+				}
+
+				return
+			}
+
+			if u, ok := v.(*ssa.UnOp); ok && u.Op == token.MUL {
+				if vals, isCell := storedValues(u.X); isCell {
+					for _, sv := range vals {
+						if si, isInstr := sv.(ssa.Instruction); isInstr {
+							rec(sv, si.Block())
+						} else {
+							rec(sv, nil)
+						}
+					}
+
+					return
+				}
+			}
+
+			leaves = append(leaves, leaf{v, pred})
+		}
+
+		rec(st.Val, st.Block())
+
+		bad := ""
+
+		for _, l := range leaves {
+			if isExpiresAt(l.v) {
+				continue
+			}
+
+			if l.pred == nil || reachable[l.pred] {
+				bad = valueName(l.v)
+			}
+		}
+
+		if bad != "" || len(nilCuts) == 0 {
+			r.Violate("R-C22-5", key, w.pos(in.Pos()), "the cache entry's Expires can be something other than the token's exp ("+bad+") although the token carries an exp: a cache hit then accepts the token after it expired")
+		} else {
+			r.Discharge("R-C22-5", key, w.pos(in.Pos()), "Expires is claims.ExpiresAt whenever the token has one")
+		}
+	})
+
+	if n == 0 {
+		r.Anchor("R-C22-5", "store to JWTCacheEntry.Expires in ValidateJWT")
+	}
+
+	// cache hit accepted only behind Now().Before(entry.Expires)
+	cuts := cutEdges(fn, func(f Fact) bool {
+		c, ok := f.V.(*ssa.Call)
+		if !ok || f.Kind != "true" || callID(c.Common()) != "time.Time.Before" {
+			return false
+		}
+
+		return len(c.Call.Args) == 2 && isFieldNamed(c.Call.Args[1], "Expires")
+	})
+
+	var find *ssa.Call
+
+	allInstrs(fn, func(in ssa.Instruction) {
+		if c, ok := in.(*ssa.Call); ok && callID(c.Common()) == "internal/caches.Find" {
+			find = c
+		}
+	})
+
+	key := "oauth.ValidateJWT|cache-hit-behind-expiry"
+
+	if find == nil || len(cuts) == 0 {
+		r.Violate("R-C22-5", key, w.pos(fn.Pos()), "no time.Now().Before(entry.Expires) guard on the cache-hit path")
+
+		return
+	}
+
+	// returns of cached data: results derive from the cache entry
+	bad := ""
+	reach2 := reach(fn.Blocks[0], cuts, nil)
+
+	for _, ret := range returnsOf(fn) {
+		res := retResults(ret)
+		if len(res) != 3 || !isNilConst(res[2]) {
+			continue
+		}
+
+		fromCache := derivesFrom(res[0], func(s ssa.Value) bool {
+			c, _ := resultOf(s)
+
+			return c == find
+		}, nil)
+
+		if fromCache && reach2[ret.Block()] {
+			bad = w.pos(ret.Pos())
+		}
+	}
+
+	if bad != "" {
+		r.Violate("R-C22-5", key, bad, "a cached identity is returned without the entry's expiry having been tested")
+	} else {
+		r.Discharge("R-C22-5", key, w.pos(find.Pos()), "cached identity returned only behind Now().Before(entry.Expires)")
+	}
 }
